@@ -50,7 +50,7 @@ ASSUMPTIONS = ['the translated fragments are the attribute-passing part of copy_
                'the generator builds no ROM with build_new_roms=True, so the result==source attribute comparison does not '
                'meet that case',
                'optimize only (proviso of C04, inherited): the pass may replace a register whose next value is a compile-time '
-               'constant by that constant; a from-reset difference of the optimize result is NOT flagged when it disappears once '
+               'constant by that constant; a from-reset difference (Output traces or final memory contents) of the optimize result is NOT flagged when it disappears once '
                'every register the pass eliminated (registers of the source with no counterpart in the result) starts out holding '
                'the value it settles to; such cases are counted (optimize_constant_register_proviso); any other difference is a '
                'violation; copy_block and synthesize are compared strictly',
@@ -465,10 +465,10 @@ def constant_register_proviso(src, res, inputs, memmap_by_id, src_sim_mems):
     warm = [inputs[t % len(inputs)] for t in range(depth + 1)]
     _, wtr = simulate(src, warm, memmap_by_id, src_mems=src_sim_mems)
     settled = {r: wtr.trace[r.name][depth] for r in regs}
-    _, ptr = simulate(src, inputs, memmap_by_id, regmap=settled, src_mems=src_sim_mems)
+    psim, ptr = simulate(src, inputs, memmap_by_id, regmap=settled, src_mems=src_sim_mems)
     return {'regs': {r.name: v for r, v in settled.items()},
             'trace_all': {nm: list(v) for nm, v in ptr.trace.items()},
-            'out_trace': out_trace(src, ptr, len(inputs))}
+            'out_trace': out_trace(src, ptr, len(inputs)), 'mem_final': final_memories(src, psim)}
 
 
 # ---------------------------------------------------------------- edits
@@ -894,6 +894,13 @@ def check_one(ctx, i, api, scenario, src, memmap_by_id, inputs, base, chain=None
         res_trace = out_trace(res, rtr, ncyc)
         res_mem = final_memories(res, rsim)
         want_mem = dict(base.get('mem_final', {}))
+        if 'mem_final' in base and {k: v for k, v in res_mem.items() if k in want_mem} != want_mem and api == 'optimize':
+            # same proviso as for the traces (C04): compare with the source started in the settled state of the
+            # registers the pass eliminated
+            pv = constant_register_proviso(src, res, inputs, memmap_by_id, src_sim_mems)
+            if pv is not None and {k: v for k, v in res_mem.items() if k in pv['mem_final']} == pv['mem_final']:
+                ctx.count('optimize_constant_register_proviso', 'memory-difference-explained-not-flagged')
+                want_mem = pv['mem_final']
         if 'mem_final' in base and {k: v for k, v in res_mem.items() if k in want_mem} != want_mem:
             badm = sorted(k for k in want_mem if res_mem.get(k) != want_mem[k])
             viol('final-memory-differs:%s' % api,
